@@ -296,7 +296,8 @@ impl<L: Language> Matcher<L> for Pattern<L> {
   fn get_match_len<D: Doc<Lang = L>>(&self, node: Node<D>) -> Option<usize> {
     let start = node.range().start;
     let end = match_end_non_recursive(self, node)?;
-    Some(end - start)
+    // no token was aligned (every pattern node was skipped): there is no matched prefix
+    end.checked_sub(start)
   }
 }
 impl std::fmt::Debug for PatternNode {
